@@ -529,6 +529,11 @@ def _worker(args):
             # container step is Model/HeaderInput.lean, C06)
             ec.respell(common.sub_rng(seed, "encodecorr2", "argspelling", path, k, str(rest[0])), spec, info,
                        drop=("sections", "headers", "headers.inner"))
+        if fixed is None and len(rest) > 1 and rest[1] == "zerow":
+            # the zero-width-column class (`harness/zerowidth.py`), per section
+            from . import zerowidth
+
+            zerowidth.apply(common.sub_rng(seed, "encodecorr2", "zerowidth", path, k, str(rest[0])), spec, info)
         if fixed is None:
             ec.draw_unserialized(seed, spec, info, "encodecorr2", path, k, *map(str, rest))
             _resync_shared(spec)
@@ -562,7 +567,7 @@ def _worker(args):
 
 
 def generate_and_compare(seed: int, n_per_path: int, paths=PATHS, fixed=None, headers: int = 0, shapes: int = 0,
-                         shared: int = 0, argspelled: int = 0):
+                         shared: int = 0, argspelled: int = 0, zerowidth: int = 0):
     """`headers` = number of additional documents of the header-variation class per table path (multi, nested1);
     `shapes` = number of additional documents of the data-shape class on the multi-section path;
     `shared` = number of additional documents of the shared-component class on the multi-section path;
@@ -574,6 +579,8 @@ def generate_and_compare(seed: int, n_per_path: int, paths=PATHS, fixed=None, he
     jobs += [(seed, p, k, None, "shared") for p in paths if p == "multi" for k in range(shared)]
     modes = {"multi": (False, True, "shapes", "shared"), "figure": (False,), "nested1": (False, True)}
     jobs += [(seed, p, k, None, modes[p][k % len(modes[p])], "args") for p in paths for k in range(argspelled)]
+    # the zero-width-column class on the table paths: plain stream / header-variation class in turn
+    jobs += [(seed, p, k, None, (False, True)[k % 2], "zerow") for p in paths if p != "figure" for k in range(zerowidth)]
     jobs += [(seed, f["path"], -1, f) for f in (fixed or [])]
     outs = common.pool_map(_worker, jobs, chunksize=8)
     for o in outs:
@@ -587,9 +594,13 @@ def run(res, tier):
     n = 150 if tier == "quick" else 1200
     from . import datashapes
 
-    outs = (generate_and_compare(res.seed, n, headers=n // 3, shapes=n // 3, argspelled=n // 3) +
-            generate_and_compare(res.seed, n // 3, paths=EXTRA_PATHS, headers=n // 6, argspelled=n // 6))
+    from . import zerowidth
+
+    outs = (generate_and_compare(res.seed, n, headers=n // 3, shapes=n // 3, argspelled=n // 3, zerowidth=n // 4) +
+            generate_and_compare(res.seed, n // 3, paths=EXTRA_PATHS, headers=n // 6, argspelled=n // 6,
+                                 zerowidth=n // 8))
     for o in outs:
+        zerowidth.count(res, o["info"], f"zerowidth:encode2:{o['path']}:{o['verdict']}")
         ec.count_spelling(res, o["info"], f"spell:encode2:{o['path']}:{o['verdict']}")
         case = dict(level="encode-doc2", path=o["path"], spec=o["spec"], info=o["info"])
         res.count(f"encode2:{o['path']}:{o['verdict']}")
